@@ -51,6 +51,15 @@ def run(ctx):
     pmax, qmax = (600, 800) if ctx.quick else (3000, 3500)
     const_checks.history_decision(R, fast, pmax, qmax, stats, fails, info)
     const_checks.history_decision(R, const_checks.SLOW, 150 if ctx.quick else 500, 250 if ctx.quick else 700, stats, fails, info)
+    # windows in the high-precision range (a fixed-point value that is inaccurate in its last bits is only seen by a request
+    # served from the cache, i.e. within 5% above the precision that filled it)
+    wins = []
+    for _ in range(3 if ctx.quick else 12):
+        p0 = rnd.randint(900, 5000 if ctx.quick else 12000)
+        hi = p0 + p0 // 16 + 60
+        wins.append([p0, hi])
+        const_checks.history_decision(R, fast, hi, hi, stats, fails, info, plo=p0, qlo=p0)
+    stats["history_windows"] = wins
     stats["time_history_s"] = round(time.time() - t, 1)
     t = time.time()
 
